@@ -54,6 +54,22 @@ class Obligation(object):
                     backends=self.backends, sample=self.sample)
 
 
+def _has_quantifier(e, strings_too=False):
+    seen = set()
+    todo = [e]
+    while todo:
+        x = todo.pop()
+        if x.get_id() in seen:
+            continue
+        seen.add(x.get_id())
+        if z3.is_quantifier(x):
+            return True
+        if strings_too and z3.is_seq(x):
+            return True
+        todo.extend(x.children())
+    return False
+
+
 class Path(object):
     def __init__(self, ex, prefix):
         self.ex = ex
@@ -62,6 +78,9 @@ class Path(object):
         self.pos = 0
         self.solver = z3.Solver()
         self.solver.set('timeout', ex.timeout_ms)
+        self.quantified = False
+        self.ground = z3.Solver()
+        self.ground.set('timeout', 2000)
         self.pc = []
         self.inputs = {}          # name -> z3 expr (order of creation)
         self.counter = 0
@@ -145,8 +164,29 @@ class Path(object):
             return
         if z3.is_false(e):
             raise Infeasible()
+        if not self.quantified and _has_quantifier(e):
+            self.quantified = True
+        if not _has_quantifier(e, True):
+            self.ground.add(e)
         self.pc.append(e)
         self.solver.add(e)
+
+    def entails_ground(self, e):
+        """entailment from the quantifier-free, string-free part of the path condition only (a subset of the hypotheses, hence
+        sound); used for the cheap arithmetic side questions of list abstractions, where the full context makes "no" answers slow"""
+        e = z3.simplify(e)
+        if z3.is_true(e):
+            return True
+        if z3.is_false(e):
+            return False
+        t0 = time.time()
+        self.ground.push()
+        self.ground.add(z3.Not(e))
+        r = self.ground.check()
+        self.ground.pop()
+        self.ex.solver_s += time.time() - t0
+        self.ex.queries += 1
+        return r == z3.unsat
 
     def axiom(self, e):
         k = e.sexpr() if hasattr(e, 'sexpr') else str(e)
@@ -162,13 +202,20 @@ class Path(object):
             self.notes.append(msg)
         self.ex.notes.add(msg)
 
-    def _check(self, e):
+    def _check(self, e, feasibility=False):
         t0 = time.time()
+        # feasibility of a branch under a quantified path condition: a satisfiability answer needs a model of the quantifiers,
+        # which the solver rarely finds; a short budget is enough, "unknown" keeps the branch (see branch())
+        quick = feasibility and self.quantified
+        if quick:
+            self.solver.set('timeout', min(self.ex.timeout_ms, 400))
         self.solver.push()
         self.solver.add(e)
         r = self.solver.check()
         m = self.solver.model() if r == z3.sat else None
         self.solver.pop()
+        if quick:
+            self.solver.set('timeout', self.ex.timeout_ms)
         self.ex.solver_s += time.time() - t0
         self.ex.queries += 1
         return r, m
@@ -216,19 +263,19 @@ class Path(object):
             except z3.Z3Exception:
                 side = None
         if side is None:
-            rt, mt = self._check(cond)
+            rt, mt = self._check(cond, True)
             if rt == z3.unsat:
                 can_t, can_f, mf = False, True, None
             else:
-                rf, mf = self._check(z3.Not(cond))
+                rf, mf = self._check(z3.Not(cond), True)
                 can_t, can_f = True, rf != z3.unsat
         elif side:
             mt = self.model
-            rf, mf = self._check(z3.Not(cond))
+            rf, mf = self._check(z3.Not(cond), True)
             can_t, can_f = True, rf != z3.unsat
         else:
             mf = self.model
-            rt, mt = self._check(cond)
+            rt, mt = self._check(cond, True)
             can_t, can_f = rt != z3.unsat, True
         if can_t and can_f:
             self.ex.schedule(self.decisions[:self.pos] + [False])
